@@ -32,18 +32,22 @@ def main():
     if hasattr(mod, "worker_init"):
         mod.worker_init()
     signal.signal(signal.SIGALRM, _alarm)
+    hangs = 0
     for line in sys.stdin:
         line = line.strip()
         if not line:
             continue
         case = json.loads(line)
         try:
-            signal.alarm(timeout)
+            # once several cases of this worker have run into the alarm, something loops: the rest gets a short leash, so
+            # that a seeded non-termination costs minutes, not hours (every reported hit is re-run with generous limits)
+            signal.alarm(timeout if hangs < 4 else max(2, timeout // 6))
             try:
                 obs = mod.impl(case)
             finally:
                 signal.alarm(0)
         except Hang:
+            hangs += 1
             obs = {"error": "hang"}
         except RecursionError as e:
             obs = {"error": "internal", "exc": "RecursionError", "msg": str(e)[:200]}
